@@ -53,7 +53,7 @@ def pytest_configure(config):
         _hooks.install_subst_hook()
         hook_counters = _hooks.counters
     orig = Survey.to_xml
-    fh = open(f"{log}.{os.getpid()}", "a", encoding="utf-8")
+    fh = open(f"{log}.{os.getpid()}", "a", encoding="utf-8", errors="backslashreplace")
     seen_subst = [0]
     depth = [0]
 
